@@ -19,9 +19,18 @@ func runCorruptionPart(r *childResult, seed int64, quick bool, part, parts int) 
 	types := allMsgTypes()
 	var targets []flipTarget
 	var large []flipTarget
-	for si, sp := range payloadSpecs() {
+	instances := 1
+	if !quick {
+		instances = 5 // thorough: five independent instances of every payload class
+	}
+	specs := payloadSpecs()
+	for k := 0; k < instances*len(specs); k++ {
+		si, sp := k, specs[k%len(specs)]
 		if sp.empty {
 			continue // no encoded bits to corrupt
+		}
+		if sp.size != "" && k >= len(specs) {
+			continue // one instance of the large ones
 		}
 		rng := rand.New(rand.NewSource(mix(seed, si, 202)))
 		ov := chooseOpts(rng, rng.Intn(16))
@@ -42,6 +51,9 @@ func runCorruptionPart(r *childResult, seed int64, quick bool, part, parts int) 
 		}
 	}
 	maxPat := 64
+	if !quick {
+		maxPat = 256
+	}
 	type unit struct {
 		t flipTarget
 		L int
@@ -54,8 +66,13 @@ func runCorruptionPart(r *childResult, seed int64, quick bool, part, parts int) 
 			}
 		}
 	}
-	// biggest first for load balance
-	sort.SliceStable(units, func(i, j int) bool { return units[i].t.nbits > units[j].t.nbits })
+	// single-bit flips first (cheapest, and the first thing a weak checksum fails), then biggest first for load balance
+	sort.SliceStable(units, func(i, j int) bool {
+		if (units[i].L == 1) != (units[j].L == 1) {
+			return units[i].L == 1
+		}
+		return units[i].t.nbits > units[j].t.nbits
+	})
 	if part == 0 {
 		logf("corruption: %d small targets, %d (target,length) units, %d large targets, %d processes", len(targets), len(units), len(large), parts)
 	}
@@ -86,9 +103,10 @@ func runCorruptionPart(r *childResult, seed int64, quick bool, part, parts int) 
 	}
 
 	parallel(len(units), func(ui int) {
-		if ui%parts != part {
-			return
+		if ui%parts != part || r.numViolations() > 0 {
+			return // after the first undetected corruption the rest of this child's units add nothing
 		}
+		defer r.save(*fOut)
 		u := units[ui]
 		rng := rand.New(rand.NewSource(mix(seed, ui, 303)))
 		m := proto.Clone(u.t.msg).(*pb.XuperMessage)
@@ -114,7 +132,7 @@ func runCorruptionPart(r *childResult, seed int64, quick bool, part, parts int) 
 					r.violation("codec|panic|Unmarshal-of-corrupted", fmt.Sprintf("panic while decoding a corrupted %s payload: %v", u.t.class, p), u.t.class)
 				}
 			}()
-			for s := 0; s+u.L <= u.t.nbits; s++ {
+			for s := 0; s+u.L <= u.t.nbits && r.numViolations() == 0; s++ {
 				for _, pat := range burstPatterns(rng, u.L, maxPat) {
 					xorBurst(buf, s, pat)
 					fail := checkCorrupted(m, scratch, &st)
@@ -172,9 +190,10 @@ func runCorruptionPart(r *childResult, seed int64, quick bool, part, parts int) 
 		}
 	}
 	parallel(len(lunits), func(ui int) {
-		if ui%parts != part {
+		if ui%parts != part || r.numViolations() > 0 {
 			return
 		}
+		defer r.save(*fOut)
 		u := lunits[ui]
 		rng := rand.New(rand.NewSource(mix(seed, ui, 404)))
 		m := proto.Clone(u.t.msg).(*pb.XuperMessage)
@@ -207,4 +226,3 @@ func runCorruptionPart(r *childResult, seed int64, quick bool, part, parts int) 
 		r.shape(fmt.Sprintf("flip-sampled|%s", u.t.class))
 	})
 }
-
